@@ -648,7 +648,7 @@ func (fc *FnCtx) makeInterface(x *ssa.MakeInterface, st *State, g *smt.Term, whe
 	xt := x.X.Type()
 	switch kindOf(xt) {
 	case KRef, KPtr:
-		if _, isPtr := xt.Underlying().(*types.Pointer); isPtr && !v.Conv {
+		if _, isPtr := xt.Underlying().(*types.Pointer); isPtr && !v.Conv && !fc.viewPointer(xt) {
 			ref := fc.term(v)
 			// a nil pointer in an interface is a non-nil interface: the model identifies
 			// the interface with the pointer, so this must not happen.
@@ -762,7 +762,7 @@ func (fc *FnCtx) checkEnsures(vars map[string]Val, st *State, g *smt.Term, where
 	}
 	for _, e := range fc.C.Ensures {
 		ec := &evalCtx{fc: fc, vars: vars, cur: st, old: fc.entryView(), atReturn: true}
-		goal := ec.boolean(e.E)
+		goal := ec.booleanOrUnprovable(e.E)
 		tags := e.Tags
 		fc.oblige("ensures", e.Label, tags, g, goal, where, e.Text)
 	}
@@ -822,4 +822,22 @@ func isErrorIface(t types.Type) bool {
 		}
 	}
 	return false
+}
+
+// viewPointer: a pointer to a named struct type that is a view (type B A) of
+// another named type's struct. Objects carry the dynamic type they were
+// allocated with, so such a pointer in an interface is boxed separately and
+// never claims the object's own dynamic type (whatever path the value took:
+// conversions may be hidden behind phis).
+func (fc *FnCtx) viewPointer(t types.Type) bool {
+	p, ok := t.Underlying().(*types.Pointer)
+	if !ok {
+		return false
+	}
+	st, ok := p.Elem().Underlying().(*types.Struct)
+	if !ok {
+		return false
+	}
+	cn, ok := fc.P.canonStruct[st]
+	return ok && cn != fc.P.TypeStr(p.Elem(), nil)
 }
